@@ -202,6 +202,8 @@ def iterable_as_set(I, ctx, v, node=None):
     s = I._as_set(ctx, v)
     if s is not None:
         return s
+    if isinstance(v, VNone) and getattr(ctx, 'no_branch', 0):
+        return None, None       # spec mode: total
     if isinstance(v, VIter):
         if v.items is not None:
             v = VTuple(v.items)
@@ -719,6 +721,8 @@ def length(I, ctx, v, node=None):
         return VInt(n)
     if isinstance(v, VObj):
         return I.engine.opaque_len(ctx, v, node)
+    if getattr(ctx, 'no_branch', 0) and isinstance(v, VNone):
+        return VInt(0)          # spec mode: total
     I.raise_exc(ctx, 'TypeError', 'object has no len()', node)
 
 
@@ -755,6 +759,8 @@ def index(I, ctx, fr, v, idx, node):
             i = iz.as_long()
             if -len(items) <= i < len(items):
                 return items[i]
+            if fr is not None and fr.spec:
+                return VObj(Z.const('index-out-of-range', Z.Obj))      # spec mode: total
             I.raise_exc(ctx, 'IndexError', 'index out of range', node)
         for k in range(len(items)):
             if ctx.branch(Z.Or(iz == k, iz == k - len(items))):
@@ -773,11 +779,25 @@ def index(I, ctx, fr, v, idx, node):
     if q is not None:
         z, et = q
         n = z3.Length(z)
+        # xs ++ [b] indexed at -1 (or [a] ++ xs at 0): answer structurally, the sequence
+        # solver is slow at nth-of-concat
+        zs = Z.simp(z)
+        if z3.is_int_value(iz) and z3.is_app(zs) and zs.decl().kind() == z3.Z3_OP_SEQ_CONCAT:
+            last, first = zs.arg(zs.num_args() - 1), zs.arg(0)
+            if iz.as_long() == -1 and z3.is_app(last) and last.decl().kind() == z3.Z3_OP_SEQ_UNIT:
+                return et.wrap(last.arg(0))
+            if iz.as_long() == 0 and z3.is_app(first) and first.decl().kind() == z3.Z3_OP_SEQ_UNIT:
+                return et.wrap(first.arg(0))
+        if z3.is_int_value(iz) and z3.is_app(zs) and zs.decl().kind() == z3.Z3_OP_SEQ_UNIT and iz.as_long() in (0, -1):
+            return et.wrap(zs.arg(0))
         if fr is not None and fr.spec:
             pass        # spec mode: total indexing
         elif not ctx.branch(Z.And(iz < n, iz >= -n)):
             I.raise_exc(ctx, 'IndexError', 'index out of range', node)
-        pos = iz if nonneg(iz) else Z.simp(z3.If(iz >= 0, iz, n + iz))
+        if nonneg(iz) or (fr is not None and fr.spec and not z3.is_int_value(iz)):
+            pos = iz        # spec expressions index with non-negative terms or a literal -1
+        else:
+            pos = Z.simp(z3.If(iz >= 0, iz, n + iz))
         return et.wrap(Z.simp(z[pos]))
     raise Unsupported('subscript of %r' % (v,), node)
 
